@@ -195,6 +195,7 @@ pub struct Step {
 
 #[derive(Serialize, Clone, Debug)]
 pub struct Violation {
+    pub count: u64,
     pub property: String,
     pub rule: String,
     pub signature: String,
@@ -247,6 +248,14 @@ impl Report {
     pub fn inconclusive(&mut self, why: String) {
         if self.inconclusive.len() < 50 && !self.inconclusive.contains(&why) {
             self.inconclusive.push(why);
+        }
+    }
+    /// keep the first witness per signature, count the rest
+    pub fn push_violation(&mut self, v: Violation) {
+        if let Some(e) = self.violations.iter_mut().find(|e| e.signature == v.signature && e.property == v.property) {
+            e.count += 1;
+        } else {
+            self.violations.push(v);
         }
     }
     pub fn take_pending(&mut self) -> Vec<(String, String, String, String, usize)> {
@@ -347,33 +356,32 @@ impl History {
             m.post(&self.w, &step, report);
         }
         // attach replays to fresh violations
-        let pend = report.take_pending();
-        if !pend.is_empty() {
-            let rv = self.replay_value();
-            for (prop, rule, sig, detail, st) in pend {
-                report.violations.push(Violation {
-                    property: prop,
-                    rule,
-                    signature: sig,
-                    detail,
-                    step: st,
-                    replay: rv.clone(),
-                });
-            }
-        }
+        self.flush_pending(report);
         step
+    }
+
+    fn flush_pending(&mut self, report: &mut Report) {
+        let pend = report.take_pending();
+        if pend.is_empty() {
+            return;
+        }
+        let mut rv: Option<Value> = None;
+        for (prop, rule, sig, detail, st) in pend {
+            if let Some(e) = report.violations.iter_mut().find(|e| e.signature == sig && e.property == prop) {
+                e.count += 1;
+                continue;
+            }
+            if rv.is_none() {
+                rv = Some(self.replay_value());
+            }
+            report.push_violation(Violation { count: 1, property: prop, rule, signature: sig, detail, step: st, replay: rv.clone().unwrap() });
+        }
     }
 
     pub fn finish(&mut self, report: &mut Report) {
         for m in self.monitors.iter_mut() {
             m.end(&self.w, report);
         }
-        let pend = report.take_pending();
-        if !pend.is_empty() {
-            let rv = self.replay_value();
-            for (prop, rule, sig, detail, st) in pend {
-                report.violations.push(Violation { property: prop, rule, signature: sig, detail, step: st, replay: rv.clone() });
-            }
-        }
+        self.flush_pending(report);
     }
 }
